@@ -28,11 +28,12 @@ def budget_s(tier):
 
 LEVELS_QUICK = [
     # (n, b, kinds, palettes, labelsets, full_ids)
-    (2, 1, cm.KINDS7, ("real", "cplx"), ("plain", "odd"), True),
-    (2, 2, cm.KINDS7, ("real", "cplx"), ("plain", "odd"), True),
+    (2, 1, cm.KINDS7, ("real", "cplx", "eq", "wide"), ("plain", "odd"), True),
+    (2, 2, cm.KINDS7, ("real", "cplx", "eq", "wide"), ("plain", "odd"), True),
     (2, 3, cm.KINDS7, ("real", "cplx"), ("plain", "odd"), False),
-    (3, 2, cm.KINDS7, ("real", "cplx"), ("plain", "odd"), True),
+    (3, 2, cm.KINDS7, ("real", "cplx", "eq", "wide"), ("plain", "odd"), True),
     (3, 3, cm.KINDS7, ("real", "cplx"), ("plain", "odd"), False),
+    (3, 3, cm.KINDS4, ("eq", "wide"), ("odd",), False),
     (3, 4, cm.KINDS4, ("real",), ("plain", "odd"), False),
     (4, 3, cm.KINDS4, ("cplx",), ("plain", "odd"), False),
     (4, 4, cm.KINDS3, ("real",), ("odd",), False),
@@ -42,7 +43,7 @@ LEVELS_THOROUGH = [
     (2, 2, cm.KINDS7, ("real", "cplx", "dec"), ("plain", "odd"), True),
     (2, 3, cm.KINDS7, ("real", "cplx", "dec"), ("plain", "odd"), True),
     (3, 2, cm.KINDS7, ("real", "cplx", "dec"), ("plain", "odd"), True),
-    (3, 3, cm.KINDS7, ("real", "cplx", "dec"), ("plain", "odd"), True),
+    (3, 3, cm.KINDS7, ("real", "cplx", "dec", "eq", "wide"), ("plain", "odd"), True),
     (3, 4, cm.KINDS7, ("real", "cplx"), ("plain", "odd"), False),
     (4, 3, cm.KINDS7, ("real", "cplx"), ("plain", "odd"), False),
     (4, 4, cm.KINDS4, ("real", "cplx"), ("plain", "odd"), False),
@@ -176,6 +177,12 @@ def judge(nl, pal, res, keys):
     if len(keys) > keys_len:
         res["states"] += 1
     rtol = cm.rtol_for(pal)
+    if pal == "wide":
+        # nodal analysis in binary64 loses about log10(Ymax/Ymin) digits: judge only spans of up to eight decades
+        ys = [abs(complex(y)) for y in (rn.immittance(b)[1] for b in nl["branches"]) if y is not None and y]
+        if (ys and max(ys) / min(ys) > 1e8) or cm.tableau_condition(nl) > 1e8:
+            bump(res["skipped"], "admittances_span_more_than_8_decades")
+            return
     phi_ref, cur_ref = cm.float_tableau_solution(nl)
     s_phi, s_i = cm.scales(nl, phi_ref, cur_ref)
     nontrivial = any(abs(v) > 1e-12 * s_phi for v in phi_ref.values()) or any(abs(v) > 1e-12 * s_i for v in cur_ref.values())
